@@ -199,7 +199,17 @@ pub fn run(case: &J) -> J {
         "match" => {
             let ev = from_json(&case["ev"]);
             let mut rs = Vec::new();
-            for q in case["qs"].as_array().expect("qs") {
+            // `qs`: an array, or an object {"q0": .., "q1": ..} taken in key order (not shrinkable)
+            let qs: Vec<&J> = match &case["qs"] {
+                J::Array(a) => a.iter().collect(),
+                J::Object(m) => {
+                    let mut ks: Vec<&String> = m.keys().collect();
+                    ks.sort();
+                    ks.into_iter().map(|k| &m[k]).collect()
+                }
+                _ => panic!("qs"),
+            };
+            for q in qs {
                 let q = q.as_str().expect("query string");
                 let t = match parse(q) {
                     None => json!("err"),
